@@ -21,7 +21,9 @@
 (*   content.                                                               *)
 (*                                                                          *)
 (* Download strategies: never / if-possible / always / later, with the      *)
-(* provenance file present or missing on the server.                        *)
+(* provenance file present or missing on the server; helm pull with every   *)
+(* combination of --verify and --prov; a dependency update with             *)
+(* verification required over two dependencies in either order.             *)
 (*                                                                          *)
 (* TLC enumerates every tamper sequence x keyring, checks the security      *)
 (* invariants of the model and exports each state as a case with the        *)
@@ -65,6 +67,8 @@ Fresh(what) == what \o ToString(Len(hist) + 1)
 FlipArchive   == arch' = [arch EXCEPT !.content = Fresh("flipped")] /\ UNCHANGED <<body, sig, whole>> /\ Step("FlipArchive")
 TruncArchive  == arch' = [arch EXCEPT !.content = Fresh("truncated")] /\ UNCHANGED <<body, sig, whole>> /\ Step("TruncArchive")
 Rename        == arch' = [arch EXCEPT !.name = "renamed"] /\ UNCHANGED <<body, sig, whole>> /\ Step("Rename")
+\* the same letters in another case: another file name all the same
+RenameCase    == arch' = [arch EXCEPT !.name = "recased"] /\ UNCHANGED <<body, sig, whole>> /\ Step("RenameCase")
 EditBody      == body' = [body EXCEPT !.meta = Fresh("edited")] /\ UNCHANGED <<arch, sig, whole>> /\ Step("EditBody")
 FixDigest     == body' = [body EXCEPT !.digest = arch.content] /\ UNCHANGED <<arch, sig, whole>> /\ Step("FixDigest")
 BreakDigest   == body' = [body EXCEPT !.digest = Fresh("garbage")] /\ UNCHANGED <<arch, sig, whole>> /\ Step("BreakDigest")
@@ -73,7 +77,7 @@ SwapSig       == sig' = [key |-> "other", over |-> body, intact |-> TRUE] /\ UNC
 EditSigPacket == sig' = [sig EXCEPT !.intact = FALSE] /\ UNCHANGED <<arch, body, whole>> /\ Step("EditSigPacket")
 TruncProv     == whole' = FALSE /\ UNCHANGED <<arch, body, sig>> /\ Step("TruncProv")
 
-Tamper == \/ FlipArchive \/ TruncArchive \/ Rename
+Tamper == \/ FlipArchive \/ TruncArchive \/ Rename \/ RenameCase
           \/ EditBody \/ FixDigest \/ BreakDigest \/ FixName
           \/ SwapSig \/ EditSigPacket \/ TruncProv
 
@@ -93,6 +97,20 @@ Download(strategy, provOnServer) ==
     [] strategy = "ifpossible" -> IF provOnServer THEN Accept ELSE TRUE
     [] strategy = "always"     -> IF provOnServer THEN Accept ELSE FALSE
 
+\* helm pull: --verify asks for verification (required), --prov only for the provenance file;
+\* with both, verification is still required
+PullStrategy(verify, later) == IF verify THEN "always" ELSE IF later THEN "later" ELSE "never"
+Pull(verify, later, provOnServer) == Download(PullStrategy(verify, later), provOnServer)
+
+\* helm dependency update --verify of a chart with two repository dependencies: this chart (as the
+\* attacker left it) and a second, untampered chart signed by the signer, in either order.  The
+\* update succeeds iff EVERY dependency verifies, wherever in the list the bad one stands.
+GoodAccept == "signer" \in Ring(ring)
+DepVerdict(d) == IF d = "this" THEN Accept ELSE GoodAccept
+DepsUpdate(strategy, deps) ==
+  IF strategy = "always" THEN \A i \in DOMAIN deps : DepVerdict(deps[i]) ELSE TRUE
+DepOrders == << <<"this", "good">>, <<"good", "this">> >>
+
 (* ----- security invariants of the model --------------------------------------- *)
 
 Untampered == hist = <<>>
@@ -111,16 +129,18 @@ Inv_NoForgery == (Accept /\ "other" \notin Ring(ring)) =>
                     (arch = OrigArchive /\ body = OrigBody /\ sig.key = "signer")
 
 \* required verification never lets a rejected chart through
-Inv_Required == \A p \in BOOLEAN : Download("always", p) => Accept
+Inv_Required == /\ \A p \in BOOLEAN : Download("always", p) => Accept
+                /\ \A l \in BOOLEAN : Pull(TRUE, l, TRUE) => Accept
+                /\ \A i \in DOMAIN DepOrders : DepsUpdate("always", DepOrders[i]) => Accept
 
 (* ----- export --------------------------------------------------------------------- *)
 
 ActNo(a) == CASE a = "FlipArchive" -> 1 [] a = "TruncArchive" -> 2 [] a = "Rename" -> 3 [] a = "EditBody" -> 4
               [] a = "FixDigest" -> 5 [] a = "BreakDigest" -> 6 [] a = "FixName" -> 7 [] a = "SwapSig" -> 8
-              [] a = "EditSigPacket" -> 9 [] a = "TruncProv" -> 10
+              [] a = "EditSigPacket" -> 9 [] a = "TruncProv" -> 10 [] a = "RenameCase" -> 11
 RingNo(k) == CASE k = "signer" -> 1 [] k = "both" -> 2 [] k = "others" -> 3 [] k = "empty" -> 4
 RECURSIVE HistNo(_)
-HistNo(h) == IF h = <<>> THEN 0 ELSE ActNo(Head(h)) + 11 * HistNo(Tail(h))
+HistNo(h) == IF h = <<>> THEN 0 ELSE ActNo(Head(h)) + 12 * HistNo(Tail(h))
 CaseNo == RingNo(ring) + 5 * HistNo(hist)
 
 Strategies == <<"never", "ifpossible", "always", "later">>
@@ -131,5 +151,9 @@ Export ==
      arch |-> arch, body |-> body, sig |-> sig, whole |-> whole,
      sigChecks |-> SigChecks, digestOK |-> DigestOK, accept |-> Accept,
      download |-> [i \in 1..4 |-> [strategy |-> Strategies[i], withProv |-> Download(Strategies[i], TRUE),
-                                   withoutProv |-> Download(Strategies[i], FALSE)]]])
+                                   withoutProv |-> Download(Strategies[i], FALSE)]],
+     pull |-> [i \in 1..4 |-> LET v == i > 2  l == i % 2 = 0 IN
+                 [verify |-> v, later |-> l, withProv |-> Pull(v, l, TRUE), withoutProv |-> Pull(v, l, FALSE)]],
+     deps |-> [i \in DOMAIN DepOrders |-> [order |-> DepOrders[i], strategy |-> "always",
+                                           ok |-> DepsUpdate("always", DepOrders[i])]]])
 =============================================================================
